@@ -19,6 +19,7 @@
   and whole comments; `runForms` — top-level forms fed one by one to `EVAL`.
 -/
 import LispModel.Proofs.Positions
+import LispModel.Proofs.LayoutFull
 import LispModel.Util
 namespace LispModel.Props.C17
 open LispModel LispModel.Read LispModel.Scan
@@ -124,6 +125,47 @@ def rows_shift_by_newlines_before_statement : Prop :=
 example : (match readStr { module := some "m" } (bytes% "(a\n b)") with
     | .ok v => getPosition v | .error _ => none) =
     some { module := some "m", beginRow := 1, beginCol := 2, row := 2, col := 10 } := by decide
+
+/-! ### layout: rows count newlines — the full statements (Proofs/LayoutFull.lean) -/
+
+open LispModel.Proofs.LayoutFull
+
+/-- **the full statement above holds**: replacing the gap in front of a form by another gap changes neither
+    kinds nor texts and shifts the row of every token by exactly the difference of the numbers of newlines -/
+theorem rows_shift_by_newlines_before : rows_shift_by_newlines_before_statement := by
+  intro g g' post hg hg' hne hne' toks toks' h h'
+  exact allRel_map _ _ (fun a b (r : TokSh (newlines g) (newlines g') a b) => by
+    show (a.kind, a.text, a.line + newlines g') = (b.kind, b.text, b.line + newlines g)
+    rw [r.1, r.2.1, r.2.2]) (layout_leading_gap g g' post hg hg' hne hne' h h')
+
+/-- **rows, in general**: a gap `g` (possibly empty) standing at a point between two tokens, before the first
+    or after the last token of `pre ++ g ++ post` (`hpoint`: the token loop passes through the state that has
+    just read the first rune behind `pre`, having recorded `tsPre`) is replaced by a non-empty gap `g'`.  Then
+    the tokens of the two texts correspond one to one: the tokens recorded up to that point (`tsPre`) keep
+    kind, text and row (`TokSame`; the row of the last of them only when the first text does not end right
+    there); every token behind it keeps kind and text and has its row shifted by exactly
+    `newlines g' - newlines g` (`TokSh`: `t'.line + newlines g = t.line + newlines g'`). -/
+theorem rows_shift_after_gap (pre g g' post : List Rune) (hg : Gap g) (hg' : Gap g') (hne' : g' ≠ [])
+    (hbom : pre ≠ [] ∨ hdCh (g ++ post) ≠ 0xFEFF) {tsPre : List Token} {fin : St}
+    (hpoint : Steps (start (pre ++ (g ++ post))) tsPre fin) (hf1 : fin.1 = hdCh (g ++ post))
+    (hf2 : fin.2.1 = (g ++ post).tail) {toks toks' : List Token}
+    (h : tokenizeRunes (pre ++ (g ++ post)) = .ok toks) (h' : tokenizeRunes (pre ++ (g' ++ post)) = .ok toks') :
+    ∃ tsPre' after after', toks = tsPre ++ after ∧ toks' = tsPre' ++ after' ∧
+      AllRel (TokSame (g ++ post)) tsPre tsPre' ∧ AllRel (TokSh (newlines g) (newlines g')) after after' :=
+  layout_main pre g g' post hg hg' hne' hbom hpoint hf1 hf2 h h'
+
+/-- what the two correspondences say -/
+theorem TokSame_spelled_out {x : List Rune} {t t' : Token} (h : TokSame x t t') :
+    t.kind = t'.kind ∧ t.text = t'.text ∧ (x ≠ [] → t.line = t'.line) := h
+
+theorem TokSh_spelled_out {n n' : Nat} {t t' : Token} (h : TokSh n n' t t') :
+    t.kind = t'.kind ∧ t.text = t'.text ∧ t'.line + n = t.line + n' := h
+
+/-- non-vacuity: two blank lines and a comment line instead of one space between `a` and `b`: the row of `a`
+    stays 1, the row of `b` moves from 1 to 4 -/
+example : ((match tokenize (bytes% "a b") with | .ok ts => some (ts.map (·.line)) | .error _ _ => none),
+    (match tokenize (bytes% "a\n\n;c\nb") with | .ok ts => some (ts.map (·.line)) | .error _ _ => none)) =
+    (some [1, 1], some [1, 4]) := by decide
 
 /-! ### evaluator side: positions of errors come from cursors of the program -/
 
